@@ -657,7 +657,7 @@ func (r *run) exec() {
 					r.srcs[(s.S-1)%len(r.srcs)].addr), r.replay(nil))
 			}
 			// InsideWindowStored: obtained + inside the window => stored, and published by exactly this ingest
-			obtained := !before.Has && s.Fetch == "ok" && (s.Sync == "synced" || s.Sync == "syncing") && !injectedStoreFail
+			obtained := !before.Has && fetched && s.Fetch == "ok" && synced && (s.Sync == "synced" || s.Sync == "syncing") && !injectedStoreFail
 			if obtained && inside {
 				if !after.Has {
 					r.rep.Violate(sigNotStored, fmt.Sprintf("the block of height %d was fetched (sync state %s, write ok), it is inside the window, "+
